@@ -1,1 +1,65 @@
 //! Models of std functions CBMC cannot carry on symbolic-length data (DESIGN 2.3).
+//! Only compiled under `cfg(kani)`; applied per harness with `#[kani::stub]`.
+//! Each model replaces *std* code only: the call sites stay in /repo's code, so
+//! removing or moving a `sort_unstable()` / `dedup()` / `push()` there is still
+//! visible to the solver.
+use std::alloc::Allocator;
+
+/// fixed capacity handed out on the first push (a checked bound: exceeding it is
+/// an assertion failure, never silent truncation)
+pub const CAP: usize = 4;
+
+/// `Vec::push`: first push allocates a fixed-capacity buffer, later pushes write
+/// in place.  Avoids `grow_amortized` on a symbolic capacity.
+pub fn push<T, A: Allocator>(v: &mut Vec<T, A>, x: T) {
+    unsafe {
+        if v.capacity() == 0 {
+            let a: A = std::ptr::read(v.allocator());
+            std::ptr::write(v, Vec::with_capacity_in(CAP, a));
+        }
+        let len = v.len();
+        assert!(len < v.capacity(), "push model: capacity bound exceeded");
+        std::ptr::write(v.as_mut_ptr().add(len), x);
+        v.set_len(len + 1);
+    }
+}
+
+/// `<[T]>::sort_unstable`: insertion sort using the element type's own `Ord`
+pub fn sort_unstable<T: Ord>(s: &mut [T]) {
+    let n = s.len();
+    let mut i = 1;
+    while i < n {
+        let mut j = i;
+        while j > 0 && s[j - 1] > s[j] {
+            s.swap(j - 1, j);
+            j -= 1;
+        }
+        i += 1;
+    }
+}
+
+/// `Vec::into_boxed_slice` without the shrinking `realloc`
+pub fn into_boxed_slice<T, A: Allocator>(v: Vec<T, A>) -> Box<[T], A> {
+    let (ptr, len, _cap, a) = v.into_raw_parts_with_allocator();
+    unsafe { Box::from_raw_in(std::ptr::slice_from_raw_parts_mut(ptr, len), a) }
+}
+
+/// `<[T]>::to_vec` into a fixed-capacity buffer
+pub fn to_vec<T: Clone>(s: &[T]) -> Vec<T> {
+    let mut v: Vec<T> = Vec::with_capacity(CAP);
+    assert!(s.len() <= CAP, "to_vec model: capacity bound exceeded");
+    let mut i = 0;
+    while i < s.len() {
+        unsafe {
+            std::ptr::write(v.as_mut_ptr().add(i), s[i].clone());
+        }
+        i += 1;
+    }
+    unsafe { v.set_len(s.len()) };
+    v
+}
+
+/// `alloc::fmt::format` in harnesses whose subject is not formatting
+pub fn format(_a: std::fmt::Arguments<'_>) -> String {
+    String::new()
+}
